@@ -429,6 +429,15 @@ def oracle_c14(tr, sc, rng):
     # -- 4. filter / sort helpers on the recorded dictionary
     keys = list(stats)
     if keys:
+        # recomputed=False without a type must treat every quantity independently: equal to the union of the per-type results
+        union = {}
+        for q in types:
+            if q != '_recomputed' and not q.startswith('timing'):
+                union.update(filter_stats(stats, type=q, recomputed=False))
+        allf = {k: v for k, v in filter_stats(stats, recomputed=False).items() if k.type != '_recomputed' and not k.type.startswith('timing')}
+        if set(allf) != set(union):
+            d = list(set(allf) ^ set(union))[0]
+            VF(fbits(d.time) if d.time is not None else b'', 'filter_untyped_differs', 'filter_stats', f'filter_stats(recomputed=False) differs from the union of the per-type results, e.g. at key {tuple(d)}', type=d.type)
         for _ in range(4):
             k0 = keys[rng.randrange(len(keys))]
             fields = rng.sample(['process', 'time', 'level', 'iter', 'sweep', 'type', 'num_restarts'], rng.randint(1, 3))
@@ -449,7 +458,7 @@ def oracle_c14(tr, sc, rng):
 
 
 def cfg_levels(sc):
-    nn = sc['config']['sweeper']['params']['num_nodes']
+    nn = sc['config']['sweeper']['params'].get('num_nodes', 1)
     return nn if isinstance(nn, list) else [nn]
 
 
@@ -463,3 +472,167 @@ def _hook_of(q):
         'k': 'LogSDCIterations',
         'error_embedded_estimate': 'LogEmbeddedErrorEstimate',
     }.get(q, 'LogWork' if q.startswith('work_') else ('LogErrors' if q.startswith('e_') else q))
+
+
+# =========================================================================================================== C09
+def _cc_params(sc, name, default=None):
+    for n, p in sc['config'].get('cc', []):
+        if n == name or n.startswith(name):
+            return p
+    return default
+
+
+def oracle_c09(tr, sc):
+    ctx, res = tr.ctx, tr.res
+    cfg = sc['config']
+    V = lambda clause, site, detail, **ident: res.violate('C09', clause, site, detail, ident=ident)  # noqa: E731
+    if tr.exc is not None and tr.exc[0] == 'StepCapExceeded':
+        res.probe('skipped_step_cap')
+        return
+    if tr.exc is not None and tr.exc[0] != 'ConvergenceError':
+        V('unexpected_exception', tr.exc[0], tr.exc[1])
+        return
+    br = {'max_restarts': 10, 'crash_after_max_restarts': True, 'restart_from_first_step': False, **(_cc_params(sc, 'BasicRestarting') or {})}
+    ad = None
+    for n, p in cfg.get('cc', []):
+        if n.startswith('Adaptivity'):
+            ad = (n, p)
+    M = br['max_restarts']
+    K = cfg['step']['maxiter']
+    by_block = {}
+    for a in ctx.attempts:
+        by_block.setdefault(a['block'], []).append(a)
+    for atts in by_block.values():
+        atts.sort(key=lambda a: a['slot'])
+    nb = len(ctx.blocks)
+    scripted_restarts = {(b, s) for b, s in sc['faults'].get('restarts', [])}
+    same_first = 1
+    for b in range(nb):
+        blk = ctx.blocks[b]
+        atts = by_block.get(b, [])
+        if not atts:
+            continue
+        # R2: one step size per block
+        if len({fbits(a['dt']) for a in atts}) > 1:
+            V('R2_mixed_dt_in_block', 'SpreadStepSizesBlockwiseNonMPI.prepare_next_block', f'block {b} starts with step sizes {[a["dt"] for a in atts]}')
+        fin = blk.get('final')
+        if fin is None:
+            # the run raised in this block: legal only as the documented surrender
+            if tr.exc and tr.exc[0] == 'ConvergenceError':
+                first = atts[0]
+                if not br['crash_after_max_restarts']:
+                    V('R3_retry_budget', 'BasicRestartingNonMPI.determine_restart', 'ConvergenceError raised although crash_after_max_restarts is False')
+                elif (first['restarts_in_a_row'] or 0) < M:
+                    V('R3_retry_budget', 'BasicRestartingNonMPI.determine_restart', f'ConvergenceError raised after {first["restarts_in_a_row"]} restart(s) in a row, budget is {M}')
+                res.probe('retry_budget_exhausted_crash')
+            continue
+        r = blk['restart_at']
+        restarted = r < len(fin)
+        first = atts[0]
+        # R3b: a restart happens only while the first step's counter is below the budget
+        if restarted and (first['restarts_in_a_row'] or 0) >= M:
+            V('R3_retry_budget', 'BasicRestartingNonMPI.determine_restart', f'block {b} restarted although its first step had already been restarted {first["restarts_in_a_row"]} time(s) in a row (max_restarts={M})')
+        if not restarted and (first['restarts_in_a_row'] or 0) >= M and M > 0:
+            res.probe('retry_budget_exhausted_moved_on')
+        nxt = by_block.get(b + 1)
+        if nxt is None:
+            continue
+        if restarted:
+            # R1: the next block begins at the start time and with the start value of the first restarted step
+            if fbits(nxt[0]['t']) != fbits(atts[r]['t']):
+                V('R1_restart_position', 'controller_nonMPI.run', f'block {b} restarted at slot {r} (t={atts[r]["t"]!r}) but the next block starts at t={nxt[0]["t"]!r}')
+            if not same_bytes(nxt[0]['u0_pre'], fin[r]['u0']):
+                V('R1_restart_value', 'controller_nonMPI.run', f'block {b} restarted at slot {r}: next block does not start from that step\'s start value')
+            for a in atts[:r]:
+                if not a.get('accepted'):
+                    V('R1_restart_position', 'controller_nonMPI.run', f'block {b}: slot {a["slot"]} before the restarted slot {r} is not kept')
+            # R3a: counters are handed over: new slot j <- old slot r+j (+1 if that step was flagged), 0 beyond
+            for j, a2 in enumerate(nxt):
+                if r + j < len(fin):
+                    want = (atts[r + j]['restarts_in_a_row'] or 0) + 1 if fin[r + j]['restart'] else 0
+                else:
+                    want = 0
+                if (a2['restarts_in_a_row'] or 0) != want:
+                    V('R3_restart_counter', 'BasicRestartingNonMPI.prepare_next_block', f'block {b + 1} slot {j}: restarts_in_a_row={a2["restarts_in_a_row"]}, handed over from block {b} slot {r + j} should be {want}')
+                    break
+            same_first = same_first + 1 if r == 0 else 1
+            if same_first > M + 1:
+                V('R3_retry_budget', 'BasicRestartingNonMPI', f'start time {nxt[0]["t"]!r} is attempted {same_first} times in a row as first step, budget max_restarts+1={M + 1}')
+            # R6: the retry of a rejected step uses a smaller step, unless a lower limit binds
+            rej = atts[r]
+            own = ad is not None and rej.get('e_est') is not None and rej['e_est'] >= ad[1]['e_tol'] and (b, r) not in scripted_restarts
+            if own and rej.get('iter', 0) >= K:
+                dmin = ad[1].get('dt_min', 0)
+                smin = ad[1].get('dt_slope_min', 0)
+                new = nxt[0]['dt']
+                binds = (dmin and new <= dmin * (1 + 4 * EPS)) or (smin and abs(new - rej['dt'] * smin) <= 4 * EPS * rej['dt'])
+                if not (new < rej['dt']) and not binds:
+                    V('R6_retry_not_smaller', 'step size control', f'step at t={rej["t"]!r} rejected with dt={rej["dt"]!r} (e_est={rej["e_est"]:.3e} >= e_tol) is retried with dt={new!r}')
+        else:
+            same_first = 1
+            for j, a2 in enumerate(nxt):
+                if (a2['restarts_in_a_row'] or 0) != 0:
+                    V('R3_restart_counter', 'BasicRestartingNonMPI.prepare_next_block', f'block {b + 1} slot {j}: restarts_in_a_row={a2["restarts_in_a_row"]} after a block without restart')
+                    break
+        # progress: first start times never go back
+        if nxt[0]['t'] < atts[0]['t']:
+            V('R3_progress', 'controller_nonMPI.run', f'block {b + 1} starts at {nxt[0]["t"]!r} before block {b} ({atts[0]["t"]!r})')
+    # R4: accepted steps meet the tolerance unless the budget was exhausted
+    if ad is not None:
+        e_tol = ad[1]['e_tol']
+        for a in ctx.attempts:
+            if a.get('accepted') and a.get('e_est') is not None and a.get('iter', 0) >= K:
+                first = by_block[a['block']][0]
+                if a['e_est'] > e_tol and (first['restarts_in_a_row'] or 0) < M:
+                    V('R4_accept_criterion', 'Adaptivity.determine_restart', f'step at t={a["t"]!r} accepted with e_est={a["e_est"]:.6e} > e_tol={e_tol:.6e} after {first["restarts_in_a_row"]} restart(s), budget {M}')
+        # R5: proposal formula and limiters
+        beta = ad[1].get('beta', 0.9)
+        if ad[0] == 'AdaptivityRK':
+            from sim.blocksim import resolve
+
+            order = ad[1].get('update_order', resolve(cfg['sweeper']['class']).get_update_order())
+        else:
+            order = K
+        raw = {}
+        for c in ctx.cc:
+            key = (c['block'], c['slot'], c['iter'])
+            if c['at'] == 'raw' and c['iter'] == K and c['e_est'] is not None and c['dt_new'] is not None:
+                want = beta * c['dt'] * (e_tol / c['e_est']) ** (1.0 / order)
+                if abs(c['dt_new'] - want) > 8 * EPS * abs(want):
+                    V('R5_proposal_formula', type_name(ad[0]), f'proposed dt_new={c["dt_new"]!r}, beta*dt*(tol/err)^(1/{order})={want!r} (dt={c["dt"]!r}, err={c["e_est"]!r})')
+                raw[key] = c
+            elif c['at'] == 'limited' and key in raw and (c['block'], c['slot']) not in scripted_restarts:
+                r0 = raw[key]
+                x = r0['dt_new']
+                dt = r0['dt']
+                smin, smax, rel = ad[1].get('dt_slope_min', 0), ad[1].get('dt_slope_max', np.inf), ad[1].get('dt_rel_min_slope', 0)
+                has_slope = any(k in ad[1] for k in ('dt_slope_min', 'dt_slope_max', 'dt_rel_min_slope'))
+                has_abs = has_slope or any(k in ad[1] for k in ('dt_min', 'dt_max'))
+                if has_slope:
+                    if x / dt < smin:
+                        x = dt * smin
+                    elif x / dt > smax:
+                        x = dt * smax
+                    elif abs(x / dt - 1) < rel and not r0['restart']:
+                        x = dt
+                if has_abs:
+                    if x < ad[1].get('dt_min', 0):
+                        x = ad[1].get('dt_min', 0)
+                    elif x > ad[1].get('dt_max', np.inf):
+                        x = ad[1].get('dt_max', np.inf)
+                if c['dt_new'] is None or abs(c['dt_new'] - x) > 8 * EPS * abs(x):
+                    V('R5_limiter', 'StepSizeLimiter', f'after the limiters dt_new={c["dt_new"]!r}, reference clip_abs(clip_slope({r0["dt_new"]!r})) = {x!r} (dt={dt!r}, limits { {k: v for k, v in ad[1].items() if k.startswith("dt_")} })')
+
+
+def type_name(n):
+    return n
+
+
+def probes_c09(tr, sc):
+    ctx, res = tr.ctx, tr.res
+    for c in ctx.cc:
+        if c['at'] == 'raw' and c.get('e_est') is not None:
+            res.probe('estimate_seen')
+            break
+    if res['faults'].get('estimate_tie'):
+        res.probe('exact_tie_e_est_equals_e_tol')
